@@ -58,11 +58,11 @@ def topo_term(t):
 
 
 def bl(l):
-    return C.cq_list([C.cq_bool(b) for b in (l or [])])
+    return "(%s : list bool)" % C.cq_list([C.cq_bool(b) for b in (l or [])])
 
 
 def nl(l):
-    return C.cq_list(["%d%%N" % v for v in (l or [])])
+    return "(%s : list N)" % C.cq_list(["%d%%N" % v for v in (l or [])])
 
 
 def vobs_term(t):
@@ -76,7 +76,7 @@ def vobs_term(t):
 def env_term(e):
     ins = ["(%d%%N, %s)" % (v, C.cq_bool(bool(b))) for v, b in e.get("in", [])]
     outs = ["None" if r < 0 else "(Some %s)" % C.cq_bool(bool(r)) for r in e.get("outrecv", [])]
-    return "(%s, %s)" % (C.cq_list(ins), C.cq_list(outs))
+    return "((%s : list (N * bool)), (%s : list (option bool)))" % (C.cq_list(ins), C.cq_list(outs))
 
 
 def cfg_term(res):
